@@ -305,7 +305,7 @@ def numeric_witness(pairs, sampler, tries=200, seed=0, rtol=1e-6, pathcond=None)
             if a != a or b != b or math.isinf(a) or math.isinf(b):
                 continue
             if abs(a - b) > rtol * (1 + abs(a) + abs(b)):
-                return dict(entry=str(entry), env=env, lhs=a, rhs=b)
+                return dict(entry=str(entry), env=env, lhs=a, rhs=b, rtol=rtol)
     return None
 
 
